@@ -1,22 +1,34 @@
-"""make setup: regenerate the reflected tables, build every .vo, extract, build every driver."""
-import glob, os, sys
+"""make setup: for every registered property (harness/manifest.d/Cxx.json): regenerate its reflected
+tables, build its .vo cone (full .vo build, never -vos), extract, build its driver. Files of
+properties that are not registered yet are not built (they may be under construction)."""
+import glob, importlib, os, sys
 sys.path.insert(0, os.path.dirname(os.path.abspath(__file__)))
 import core
 def main():
-    for gen in sorted(glob.glob(os.path.join(core.ROOT, "harness", "gen_*.py"))):
-        r = core.sh([core.PY, gen], env={"PYTHONPATH": core.REPO, "PYTHONHASHSEED": "0"})
-        sys.stdout.write(r.stdout + r.stderr)
-        if r.returncode != 0:
-            sys.exit("table generation failed")
-    ok, log = core.coq_make()
+    props = sorted(os.path.basename(f)[:-5] for f in glob.glob(os.path.join(core.ROOT, "harness", "manifest.d", "C*.json")))
+    targets, mods = [], []
+    for p in props:
+        m = importlib.import_module(p.lower()).PROPERTY()
+        mods.append(m)
+        gen = os.path.join(core.ROOT, "harness", f"gen_{p.lower()}.py")
+        if os.path.exists(gen):
+            r = core.sh([core.PY, gen], env={"PYTHONPATH": core.REPO + os.pathsep + os.path.join(core.ROOT, "harness"), "PYTHONHASHSEED": "0"})
+            sys.stdout.write(r.stdout + r.stderr)
+            if r.returncode != 0:
+                sys.exit(f"table generation failed for {p}")
+        if m.coq_targets is None:
+            targets = None
+        elif targets is not None:
+            targets += [t for t in m.coq_targets if t not in targets]
+    ok, log = core.coq_make(targets)
     print(log[-3000:])
     if not ok:
         sys.exit("coq build failed")
-    for d in sorted(glob.glob(os.path.join(core.ROOT, "ocaml", "c*_driver.ml"))):
-        prop = os.path.basename(d).split("_")[0].upper()
-        print("driver", core.build_driver(prop))
+    for m in mods:
+        if m.has_driver:
+            print("driver", core.build_driver(m.id))
     bad = core.lint()
     if bad:
         print("\n".join(bad)); sys.exit("lint failed")
-    print("setup ok")
+    print("setup ok:", " ".join(props))
 main()
